@@ -32,7 +32,11 @@ def main() -> int:
     ctx = Ctx(a.prop, a.tier, seed)
     try:
         if a.replay:
-            return mod.replay(ctx, json.load(open(a.replay)))
+            rec = json.load(open(a.replay))
+            # same tier and seed as the run that produced the finding; no evidence file is written
+            ctx = Ctx(a.prop, rec.get("tier", a.tier), int(rec.get("seed", seed) or 0))
+            ctx.replay_mode = True
+            return mod.replay(ctx, rec)
         mod.run(ctx)
         return ctx.finish()
     except MachineryError as e:
